@@ -194,6 +194,19 @@ def run(tier, seed):
     mid = gen.midtransfer_family()
     for backend in ("memory", "path"):
         corecheck.validate(chk, gen.std_cfg(ns=1, backend=backend), gen.STD_TREE, mid if tier != "quick" else mid[::2], label="midtransfer:" + backend)
+    # 6. "however the network delays the data": an upload whose sender pauses - shorter and longer than the server's socket timeout -
+    #    and then goes on.  Completion is announced only for what arrived completely; a pause that is too long ends the transfer
+    #    without a completion reply, never with one for a prefix.
+    login = [["connect", 1], ["send", 1, "USER u1"], ["send", 1, "PASS pw1"]]
+    paused = []
+    for verb in ("STOR n1", "APPE f", "STOR d/g"):
+        for pasv in ("PASV", "EPSV"):
+            for pause in (300, 999, 1000, 1001, 1700):
+                for before in ([], [[1, 2, 3]], [[1, 2], [3, 4, 5]]):
+                    st = login + [["send", 1, pasv], ["dconnect", 1], ["send", 1, verb]] + [["dsend", 1, b] for b in before]
+                    st += [["tick", pause], ["dsend", 1, [7, 8]], ["deof", 1], ["tick", 0], ["send", 1, "PWD"]]
+                    paused.append(st)
+    corecheck.validate(chk, gen.std_cfg(ns=1, sock=1000), gen.STD_TREE, paused, label="upload-paused")
     chk.cov["rule"] = ("real client streams (upload_stream / append_stream / download_stream with offset) against the real server: "
                        "payload lengths 0,1,B-1,B,B+1,2B,2B+1,3B for block sizes B, position-tagged bytes, CR/LF/NUL/IAC runs, all 256 "
                        "values, existing lengths 0,2,5, restart offsets 0/inside/at end/beyond, client write chunkings and read sizes, "
